@@ -2,7 +2,7 @@
 # Applies a patch to /repo, runs the given checks, and always reverts /repo afterwards.
 #   tools/try_mutant.sh <patch.diff> <PROP> [<PROP>...] [-- extra args for ./check]
 # Prints one line per property: CAUGHT / MISSED / HARNESS-ERROR.
-patch="$1"; shift
+patch="$(realpath "$1")"; shift
 props=(); extra=()
 while [ $# -gt 0 ]; do
   if [ "$1" = "--" ]; then shift; extra=("$@"); break; fi
